@@ -42,7 +42,14 @@ def load(extra_gate_overrides=None):
                 raise TypeError("float() of a complex value")
             return x
         return float(x)
-    mat = src.shadow_load(MAT, {"sympy": trig.SYMPY, "np": trig.NUMPY, "__lit__": trig.lit, "float": _float},
+    class _FloatMeta(type):
+        def __instancecheck__(cls, x):
+            return isinstance(x, float)
+
+    class _Float(metaclass=_FloatMeta):   # float(...) on exact values is the identity; isinstance(x, float) is unchanged
+        def __new__(cls, x=0.0):
+            return _float(x)
+    mat = src.shadow_load(MAT, {"sympy": trig.SYMPY, "np": trig.NUMPY, "__lit__": trig.lit, "float": _Float},
                           transform=trig.wrap_literals)
     ov = {"sympy": trig.SYMPY, "np": trig.NUMPY, "get_free_symbols": _get_free_symbols, "sub_symbols": _sub_symbols}
     ov.update(extra_gate_overrides or {})
